@@ -3,7 +3,7 @@ CONSTANTS
   Answer <- TableAnswer
   MaxLimit = 14
   Costs <- CostSetQuick
-  ProgIds = {1, 2, 3, 4, 5, 6, 7, 8, 9, 10, 11, 12}
+  ProgIds = {1, 2, 3, 4, 5, 6, 7, 8, 9, 10, 11, 12, 13}
 INVARIANT Confluent
 INVARIANT Bounds
 INVARIANT GasWithinLimit
